@@ -28,3 +28,5 @@ def run(rep):
     ms.rule_formatter(rep)
     # "delivered or reported": only an identical message (which includes the position) is reported once
     er.rule_cap(rep, "C18.cap")
+    # no hidden state: what the property promises for one use must hold for every later use as well
+    ms.rule_stateless(rep, "C18")
